@@ -33,6 +33,7 @@ type TierSpec struct {
 	CrossCheck  bool   `json:"cross_check"`
 	Parallel    int    `json:"parallel"`
 	Lazy        bool   `json:"lazy"`
+	ExploreSeconds int `json:"explore_seconds"`
 }
 
 type GroupSpec struct {
@@ -202,7 +203,7 @@ func RunCheck(propFile, tier string, only string, verbose bool) int {
 			go func() {
 				defer wg.Done()
 				defer func() { <-sem }()
-				res[i] = RunHarness(l, fn, HarnessConfig{Unwind: ts.Unwind, BranchTimeoutMs: ts.BranchMs, InitPkgs: g.Init, Merge: true, Tier: tier, Lazy: ts.Lazy})
+				res[i] = RunHarness(l, fn, HarnessConfig{Unwind: ts.Unwind, BranchTimeoutMs: ts.BranchMs, InitPkgs: g.Init, Merge: true, Tier: tier, Lazy: ts.Lazy, ExploreSeconds: exploreBudget(ts, tier)})
 				if verbose {
 					r := res[i]
 					fmt.Printf("explored %s: paths=%d obligations=%d errors=%d (%.1fs, %d branch queries %.1fs)\n", r.Name, r.Paths, len(r.Obligations), len(r.Errors), r.Secs, r.BranchQueries, r.BranchSecs)
@@ -678,3 +679,13 @@ func (r *replayer) replay(ob *Obligation, cexPath string) (bool, string) {
 }
 
 var _ = big.NewInt
+
+func exploreBudget(ts TierSpec, tier string) int {
+	if ts.ExploreSeconds > 0 {
+		return ts.ExploreSeconds
+	}
+	if tier == "thorough" {
+		return 7200
+	}
+	return 900
+}
